@@ -113,6 +113,7 @@ class SourceIndex:
                     table[(node.name, node.lineno)] = node
                 elif isinstance(node, ast.Lambda):
                     table.setdefault(("<lambda>", node.lineno), node)
+                    table.setdefault(("<lambdas>", node.lineno), []).append(node)
             self.files[filename] = (tree, table, src)
         return self.files[filename]
 
@@ -121,6 +122,23 @@ class SourceIndex:
         fn = code.co_filename
         _tree, table, _src = self.parse(fn)
         node = table.get((code.co_name, code.co_firstlineno))
+        if code.co_name == "<lambda>":
+            cands = table.get(("<lambdas>", code.co_firstlineno)) or []
+            if len(cands) > 1:
+                # several lambdas start on this line: take the one whose body holds the first instruction
+                pos = next(((l, c) for (l, _e, c, ec) in code.co_positions() if l is not None and c is not None and ec is not None and ec > c), None)
+                best = None
+                for cand in cands:
+                    b = cand.body
+                    if pos is not None and (b.lineno, b.col_offset) <= pos <= (b.end_lineno, b.end_col_offset):
+                        if best is None or (b.end_lineno - b.lineno, b.end_col_offset - b.col_offset) < (
+                            best.body.end_lineno - best.body.lineno,
+                            best.body.end_col_offset - best.body.col_offset,
+                        ):
+                            best = cand
+                if best is None:
+                    raise Unsupported(f"several lambdas on line {code.co_firstlineno} of {fn}: cannot tell which one this is")
+                node = best
         if node is None:
             raise Unsupported(f"no source for {func.__qualname__} at {fn}:{code.co_firstlineno}")
         return node
